@@ -419,9 +419,9 @@ var knownClass = map[string]bool{"no-comparable-site:out-of-range": true, "local
 
 var comps = []string{
 	aaOrder, aaOrder, aaOrder,
-	"AAAALLLLGGGKKEEVVSST",                     // few frequent residues
+	"AAAALLLLGGGKKEEVVSST",                      // few frequent residues
 	"ARNDCQEGHILKMFPSTWYVLLLLAAAAGGGSSSEEEKKKV", // realistic skew
-	"WCMHYF",                                    // rare residues only
+	"WCMHYF", // rare residues only
 	"DE", "ILV", "AG",
 }
 
